@@ -10,6 +10,10 @@ import (
 	"testing"
 	"testing/synctest"
 	"time"
+
+	"github.com/libp2p/go-libp2p/core/peer"
+
+	"github.com/ipfs/go-graphsync/verifhook"
 )
 
 // Violation is a property failure found by an oracle.
@@ -92,10 +96,88 @@ type World struct {
 
 	nonDefault int
 	lastFired  string
+
+	OrderSalt uint64
+	Yields    map[string]bool
+	objNames  map[any]string
+	OnObserve func(site, detail string, obj any)
 }
 
 func newWorld(t *testing.T, tape *Tape) *World {
+	w := newWorld0(t, tape)
+	w.installHooks()
+	return w
+}
+
+// installHooks points the guarded seams in /repo at this world.
+func (w *World) installHooks() {
+	verifhook.OrderFn = func(site string, n int, key func(i int) string, swap func(i, j int)) {
+		// canonical order by key, then a per-run permutation derived from the
+		// order salt drawn at world creation (no tape draw at run time)
+		idx := make([]int, n)
+		for i := range idx {
+			idx[i] = i
+		}
+		keys := make([]string, n)
+		for i := 0; i < n; i++ {
+			k := key(i)
+			if w.OrderSalt != 0 {
+				h := sha256.Sum256([]byte(fmt.Sprintf("%d|%s", w.OrderSalt, k)))
+				k = hex.EncodeToString(h[:8]) + k
+			}
+			keys[i] = k
+		}
+		// selection sort using swap so that the caller's slice is permuted
+		for i := 0; i < n; i++ {
+			m := i
+			for j := i + 1; j < n; j++ {
+				if keys[j] < keys[m] {
+					m = j
+				}
+			}
+			if m != i {
+				swap(i, m)
+				keys[i], keys[m] = keys[m], keys[i]
+			}
+		}
+	}
+	verifhook.YieldFn = func(site, detail string, obj any) {
+		if !w.Yields[site] {
+			return
+		}
+		node := "?"
+		w.mu.Lock()
+		if n, ok := w.objNames[obj]; ok {
+			node = n
+		}
+		w.mu.Unlock()
+		peerName := detail
+		if w.Net != nil {
+			peerName = w.Net.Name(peer.ID(detail))
+		}
+		w.Park("yield", "yield|"+site+"|"+node+">"+peerName)
+	}
+	verifhook.ObserveFn = func(site, detail string, obj any) {
+		if w.OnObserve != nil {
+			w.OnObserve(site, detail, obj)
+		}
+	}
+	w.cleanup = append(w.cleanup, func() {
+		verifhook.OrderFn, verifhook.YieldFn, verifhook.ObserveFn = nil, nil, nil
+	})
+}
+
+// NameObject lets hooks identify which node an internal object belongs to.
+func (w *World) NameObject(obj any, name string) {
+	w.mu.Lock()
+	w.objNames[obj] = name
+	w.mu.Unlock()
+}
+
+func newWorld0(t *testing.T, tape *Tape) *World {
 	return &World{
+		objNames: map[any]string{},
+		Yields:   map[string]bool{"messagequeue.beforeSendMessage": true},
 		T: t, Tape: tape,
 		gates:    map[string]*Event{},
 		keySeq:   map[string]int{},
